@@ -137,7 +137,8 @@ impl Profile {
                 p.w_op = 4;
                 p.w_hold = 2;
                 p.w_frame = 3;
-                p.w_conn = 0;
+                p.w_conn = 1;
+                p.w_restart = 1;
                 p.auth = Some(Auth::None);
             }
             "C05" => {
@@ -271,6 +272,8 @@ pub struct Cl {
     pub fired: BTreeSet<u32>,
     /// tick of the last update message the server sent to this client in this session
     pub last_upd_tick_sent: u32,
+    /// tick of the last update message the transport handed to this client in this session
+    pub last_upd_tick_delivered: u32,
     /// (kind, seq) -> stamped tick decoded from the wire
     pub stamps: BTreeMap<(&'static str, u32), u32>,
     pub pending_disconnect: bool,
@@ -434,6 +437,7 @@ impl Sim {
                     delivered_per_tick: default(),
                     fired: default(),
                     last_upd_tick_sent: 0,
+                    last_upd_tick_delivered: 0,
                     stamps: default(),
                     pending_disconnect: false,
                     first_update_checked: false,
@@ -535,6 +539,7 @@ impl Sim {
         c.delivered_per_tick.clear();
         c.fired.clear();
         c.last_upd_tick_sent = 0;
+        c.last_upd_tick_delivered = 0;
         c.stamps.clear();
         c.authorized = false;
         c.hold_upd = false;
@@ -568,6 +573,14 @@ impl Sim {
         c.authorized = false;
         c.app.world_mut().resource_mut::<RepliconClient>().set_status(RepliconClientStatus::Connected);
         let sess = c.session;
+        if self.cfg.events {
+            // allocated now, so that it is larger than everything sent before and smaller than everything
+            // this session sends later (per-type order on the ordered channel)
+            self.seq += 1;
+            let seq = self.seq;
+            c.app.world_mut().resource_mut::<Hello>().0 = seq;
+            self.sent_c.push(SentC { ci: i, session: sess, kind: "CEv", seq, client_ent: None, server_ent: None, handled: 0, handled_locally: 0, on_wire: false, may_be_lost: false });
+        }
         self.note(format!("connect client{i} as {ent} max={max_size} session={sess}"));
         self.obs.inc("connects");
         self.refresh_auth();
@@ -837,6 +850,11 @@ impl Sim {
                 if mm.update_tick > u {
                     self.obs.inc("mutate_delivered_before_its_update");
                 }
+            }
+        }
+        if ch == 0 {
+            if let Some((_, t, _)) = wire::update_header(&m) {
+                self.clients[ci].last_upd_tick_delivered = t;
             }
         }
         self.obs.inc("s2c_delivered");
